@@ -36,7 +36,7 @@ def _dictator_branch(ctx, f, scope_node, label):
     pop_atoms = {s[1] for s in align.sigs(f, d.pop, d.call) if s[0] == "atom"}
     w = d.probs
     wd = astx.unique_def(f.node, w.id) if isinstance(w, ast.Name) else w
-    okw = isinstance(wd, ast.ListComp) and re.fullmatch(rf"{wd.generators[0].target.id}\.weight", astx.u(wd.elt)) is not None
+    okw = isinstance(wd, astx.LCOMP) and re.fullmatch(rf"{wd.generators[0].target.id}\.weight", astx.u(wd.elt)) is not None
     okk = astx.is_const(d.kw.get("k"), 1)
     okpop = pop_atoms == {f"{f.params[1]}.ballots"}
     ctx.check(ok and okw and okk and okpop, f, d.call, f"{label}: dictator ballot ~ random.choices(profile.ballots, weights=[b.weight ...], k=1)", why[:150],
